@@ -732,6 +732,11 @@ func (e *SpecEnv) evalCall(c *ast.CallExpr) SVal {
 			return SVal{S: app("if.val", v.S), T: t, Sort: "Ptr"}
 		}
 		return e.load(app("if.val", v.S), t)
+	case "box":
+		// box(p, T): the interface value holding the pointer p with dynamic type T
+		v := e.eval(args[0])
+		t := e.resolveType(args[1])
+		return SVal{S: app("mkif", fmt.Sprint(g.typeID(t)), v.S), Sort: "Iface"}
 	case "has":
 		m, k := e.eval(args[0]), e.eval(args[1])
 		mt := m.T.Underlying().(*types.Map)
